@@ -273,6 +273,11 @@ def show_atom(a, depth=0):
     if tag == "mcall":
         args = [show_key(x, depth + 1) for x in a[3]] + ["%s=%s" % (k, show_key(x, depth + 1)) for k, x in a[4]]
         return "%s.%s(%s)" % (show_key(a[2], depth + 1), a[1], ", ".join(args))
+    if tag == "upd":
+        args = [show_key(x, depth + 1) for x in a[3]] + ["%s=%s" % (k, show_key(x, depth + 1)) for k, x in a[4]]
+        return "%s«%s(%s)»" % (show_key(a[2], depth + 1), a[1], ", ".join(args))
+    if tag == "after":
+        return "%s«.%s=%s»" % (show_key(a[1], depth + 1), a[2], show_key(a[3], depth + 1))
     if tag == "sub":
         return "%s[%s]" % (show_key(a[1], depth + 1), show_key(a[2], depth + 1))
     if tag == "elem":
@@ -576,6 +581,11 @@ class Interp:
             kw[a.arg] = (kwargs or {}).get(a.arg, Poly.atom(("v", "K_" + a.arg)))
         return _interp_run_with_env(self, fi, full, kw, self_cls, {})
 
+    def setter_names(self):
+        if not hasattr(self, "_setter_names"):
+            self._setter_names = {n for c in self.prog.classes.values() for n, d in c.properties.items() if "setter" in d}
+        return self._setter_names
+
     def _eval_in(self, expr, fi, env):
         return Frame(self, fi, fi.cls).eval(expr, State(env))
 
@@ -654,7 +664,18 @@ class Frame:
         if isinstance(s, ast.Expr):
             if isinstance(s.value, ast.Constant):
                 return [(st, ("fall",))]
-            self.eval(s.value, st)
+            r = self.eval(s.value, st)
+            # `x.m(args)` as a statement on a locally created opaque object is called for its effect:
+            # rebind the local to the updated object, so that later uses see that it was edited
+            c = s.value
+            if (isinstance(c, ast.Call) and isinstance(c.func, ast.Attribute) and isinstance(c.func.value, ast.Name)
+                    and c.func.value.id in st.env and isinstance(r, Poly)):
+                a = r.as_atom()
+                cur = st.env[c.func.value.id]
+                ca = cur.as_atom() if isinstance(cur, Poly) else None
+                if (a is not None and a[0] == "mcall" and ca is not None and a[2] == cur.key()
+                        and ca[0] in ("call", "mcall", "upd") and not (ca[0] == "call" and ca[1] == "concat")):
+                    st.env[c.func.value.id] = Poly.atom(("upd",) + a[1:])
             return [(st, ("fall",))]
         if isinstance(s, ast.Assign):
             v = self.eval(s.value, st)
@@ -800,6 +821,10 @@ class Frame:
             slot = ("@attr", vkey(base), target.attr)
             st.env[slot] = v
             self.I.events.append(Event("store_attr", [base, v], {"attr": target.attr}, st.guards, target))
+            if ci is None and target.attr in self.I.setter_names():
+                # a property setter of some repository class: it may refresh other attributes of the
+                # object, so later reads of them are reads of the object *after* this store
+                st.env[("@ver", vkey(base))] = ("after", st.env.get(("@ver", vkey(base)), vkey(base)), target.attr, vkey(v))
             return
         if isinstance(target, ast.Subscript):
             base = self.eval(target.value, st)
@@ -860,6 +885,8 @@ class Frame:
         slot = ("@attr", vkey(base), e.attr)
         if slot in st.env:
             return st.env[slot]
+        if ("@ver", vkey(base)) in st.env:
+            return Poly.atom(("attr", st.env[("@ver", vkey(base))], e.attr))
         # property getter on self or on a class-typed symbol
         ci = self.class_of(base, e.value, st)
         if ci is not None:
@@ -1205,6 +1232,9 @@ class Frame:
         else:
             full = self.global_name(dotted.split(".")[0]) + dotted[dotted.index("."):]
             fi = self.I.prog.functions.get(full) or self.I.prog._resolve_dotted_fn(full)
+        if fi is None and "." not in dotted and self.fi.qualname.startswith("spec:"):
+            # specifications may name the shared numeric helpers without importing them
+            fi = self.I.prog.functions.get("phyclone.utils.math." + dotted)
         if fi is not None:
             if self.should_inline(fi):
                 return self.call_function(fi, args, kwargs, st, node)
@@ -1327,6 +1357,8 @@ class Frame:
 
     def opaque_mcall(self, name, recv, args, kwargs, st, node):
         self.I.events.append(Event("." + name, args, kwargs, st.guards, node, recv=recv))
+        if name == "sum" and not args and not kwargs:
+            return Poly.atom(("call", "sum", (vkey(recv),), ()))  # x.sum() is sum(x)
         return Poly.atom(("mcall", name, vkey(recv), tuple(vkey(a) for a in args), tuple(sorted(((k, vkey(v)) for k, v in kwargs.items()), key=_k))))
 
 
